@@ -50,6 +50,14 @@
 (*   StaleCancels = TRUE  : evicting a node that is no longer current      *)
 (*                          clears the in-flight load -> NoDrop violated   *)
 (*                          (code before fix 7dd53de)                      *)
+(*   Dead = TRUE          : the key initially holds an EXPIRED entry that   *)
+(*                          maintenance has not removed yet: lookups miss, *)
+(*                          the node is still in the table.  Writer kind   *)
+(*                          "sweep" is the expiration sweep removing it.   *)
+(*   SweepCancels = TRUE  : removing that dead node clears the in-flight   *)
+(*                          load of the key (the load that was started     *)
+(*                          BECAUSE the entry had expired) -> NoDrop       *)
+(*                          violated (finding F24; FALSE = repaired code)  *)
 (***************************************************************************)
 EXTENDS Integers, Sequences, FiniteSets, TLC
 
@@ -60,12 +68,14 @@ CONSTANTS Getters,      \* processes calling Get (load on miss)
           Outcomes,     \* subset of {"val", "err", "nf", "panic"}
           Preload,      \* TRUE: the key holds a value (50) initially
           Expected, StaleCancels,
+          Dead, SweepCancels,
           FailClears,   \* "own": a load that failed removes its own in-flight record only (the code); "any": whatever record is registered
           RegLocked     \* TRUE: the in-flight record is registered inside the key's table computation (under the bucket lock)
 
 Nil == 0
 (* --algorithm LoadRace
-variables val = IF Preload THEN 50 ELSE Nil,   \* cached value of the key (Nil = absent); loaded values are 100 + id, written ones 200 + writer
+variables dead = Dead,               \* an expired, not yet removed node of the key is in the table (val = Nil: lookups miss)
+          val = IF Preload THEN 50 ELSE Nil,   \* cached value of the key (Nil = absent); loaded values are 100 + id, written ones 200 + writer
           infl = Nil,                \* in-flight record of the key (id of the process that created it)
           locked = FALSE,            \* bucket lock of the key
           done = {},                 \* calls whose waiters have been released
@@ -115,7 +125,7 @@ begin
               if stale[self] then
                  if inWindow[self] then windowInstall := TRUE; else staleInstall := TRUE; end if;
               end if;
-              val := 100 + self; touched := [p \in Getters \cup Refreshers |-> TRUE];
+              val := 100 + self; touched := [p \in Getters \cup Refreshers |-> TRUE]; dead := FALSE;
            elsif outcome = "val" /\ ~touched[self] then
               dropped := TRUE;     \* loaded, nothing intervened, and yet not installed
            end if;
@@ -135,7 +145,8 @@ begin
            locked := TRUE;
            \* removing an absent key changes nothing (but an explicit invalidation still clears the in-flight record)
            wrote := WriterKind[self] = "set" \/ (WriterKind[self] \in {"invalidate", "evict"} /\ val # Nil);
-           if wrote \/ WriterKind[self] = "invalidate" \/ (WriterKind[self] = "stale" /\ StaleCancels) then
+           if wrote \/ WriterKind[self] = "invalidate" \/ (WriterKind[self] = "stale" /\ StaleCancels)
+                    \/ (WriterKind[self] = "sweep" /\ dead /\ SweepCancels) then
               infl := Nil; superseded := superseded \cup created;
            end if;
            \* C09: after an explicit invalidation the cache holds nothing - a load it cancelled is not "dropped"
@@ -145,21 +156,24 @@ begin
               val := IF WriterKind[self] = "set" THEN 200 + self ELSE Nil;
               stale := [p \in Getters \cup Refreshers |-> TRUE]; touched := [p \in Getters \cup Refreshers |-> TRUE];
            end if;
+           \* the dead node leaves the table with a write, an invalidation or the sweep; nothing visible changes (val was Nil already)
+           if WriterKind[self] \in {"set", "invalidate", "sweep"} then dead := FALSE; end if;
            locked := FALSE;
 end process;
 end algorithm; *)
 \* BEGIN TRANSLATION
-VARIABLES pc, val, infl, locked, done, running, created, res, stale, touched, 
-          seen, superseded, got, inWindow, staleInstall, windowInstall, 
-          dropped, mine, outcome, correct, wrote
+VARIABLES pc, dead, val, infl, locked, done, running, created, res, stale, 
+          touched, seen, superseded, got, inWindow, staleInstall, 
+          windowInstall, dropped, mine, outcome, correct, wrote
 
-vars == << pc, val, infl, locked, done, running, created, res, stale, touched, 
-           seen, superseded, got, inWindow, staleInstall, windowInstall, 
-           dropped, mine, outcome, correct, wrote >>
+vars == << pc, dead, val, infl, locked, done, running, created, res, stale, 
+           touched, seen, superseded, got, inWindow, staleInstall, 
+           windowInstall, dropped, mine, outcome, correct, wrote >>
 
 ProcSet == (Getters \cup Refreshers) \cup (Writers)
 
 Init == (* Global variables *)
+        /\ dead = Dead
         /\ val = IF Preload THEN 50 ELSE Nil
         /\ infl = Nil
         /\ locked = FALSE
@@ -194,10 +208,10 @@ lookup(self) == /\ pc[self] = "lookup"
                       ELSE /\ seen' = [seen EXCEPT ![self] = val]
                            /\ pc' = [pc EXCEPT ![self] = "start"]
                            /\ got' = got
-                /\ UNCHANGED << val, infl, locked, done, running, created, res, 
-                                stale, superseded, inWindow, staleInstall, 
-                                windowInstall, dropped, mine, outcome, correct, 
-                                wrote >>
+                /\ UNCHANGED << dead, val, infl, locked, done, running, 
+                                created, res, stale, superseded, inWindow, 
+                                staleInstall, windowInstall, dropped, mine, 
+                                outcome, correct, wrote >>
 
 start(self) == /\ pc[self] = "start"
                /\ ~(RegLocked /\ locked)
@@ -211,17 +225,17 @@ start(self) == /\ pc[self] = "start"
                      ELSE /\ mine' = [mine EXCEPT ![self] = infl]
                           /\ pc' = [pc EXCEPT ![self] = "wait"]
                           /\ UNCHANGED << infl, created, stale, inWindow >>
-               /\ UNCHANGED << val, locked, done, running, res, touched, seen, 
-                               superseded, got, staleInstall, windowInstall, 
-                               dropped, outcome, correct, wrote >>
+               /\ UNCHANGED << dead, val, locked, done, running, res, touched, 
+                               seen, superseded, got, staleInstall, 
+                               windowInstall, dropped, outcome, correct, wrote >>
 
 ldEnter(self) == /\ pc[self] = "ldEnter"
                  /\ running' = (running \cup {self})
                  /\ pc' = [pc EXCEPT ![self] = "ldExit"]
-                 /\ UNCHANGED << val, infl, locked, done, created, res, stale, 
-                                 touched, seen, superseded, got, inWindow, 
-                                 staleInstall, windowInstall, dropped, mine, 
-                                 outcome, correct, wrote >>
+                 /\ UNCHANGED << dead, val, infl, locked, done, created, res, 
+                                 stale, touched, seen, superseded, got, 
+                                 inWindow, staleInstall, windowInstall, 
+                                 dropped, mine, outcome, correct, wrote >>
 
 ldExit(self) == /\ pc[self] = "ldExit"
                 /\ \E o \in Outcomes:
@@ -230,8 +244,8 @@ ldExit(self) == /\ pc[self] = "ldExit"
                 /\ superseded' = superseded \ {self}
                 /\ created' = created \ {self}
                 /\ pc' = [pc EXCEPT ![self] = "install"]
-                /\ UNCHANGED << val, infl, locked, done, res, stale, touched, 
-                                seen, got, inWindow, staleInstall, 
+                /\ UNCHANGED << dead, val, infl, locked, done, res, stale, 
+                                touched, seen, got, inWindow, staleInstall, 
                                 windowInstall, dropped, mine, correct, wrote >>
 
 install(self) == /\ pc[self] = "install"
@@ -249,7 +263,7 @@ install(self) == /\ pc[self] = "install"
                                   ELSE /\ TRUE
                                        /\ UNCHANGED touched
                             /\ val' = Nil
-                            /\ UNCHANGED << staleInstall, windowInstall, 
+                            /\ UNCHANGED << dead, staleInstall, windowInstall, 
                                             dropped >>
                        ELSE /\ IF correct'[self] /\ outcome[self] = "val"
                                   THEN /\ IF stale[self]
@@ -263,12 +277,13 @@ install(self) == /\ pc[self] = "install"
                                                                   windowInstall >>
                                        /\ val' = 100 + self
                                        /\ touched' = [p \in Getters \cup Refreshers |-> TRUE]
+                                       /\ dead' = FALSE
                                        /\ UNCHANGED dropped
                                   ELSE /\ IF outcome[self] = "val" /\ ~touched[self]
                                              THEN /\ dropped' = TRUE
                                              ELSE /\ TRUE
                                                   /\ UNCHANGED dropped
-                                       /\ UNCHANGED << val, touched, 
+                                       /\ UNCHANGED << dead, val, touched, 
                                                        staleInstall, 
                                                        windowInstall >>
                  /\ res' = [res EXCEPT ![self] = <<outcome[self], IF outcome[self] = "val" THEN 100 + self ELSE Nil>>]
@@ -281,27 +296,27 @@ release(self) == /\ pc[self] = "release"
                  /\ done' = (done \cup {self})
                  /\ got' = [got EXCEPT ![self] = res[self]]
                  /\ pc' = [pc EXCEPT ![self] = "finish"]
-                 /\ UNCHANGED << val, infl, locked, running, created, res, 
-                                 stale, touched, seen, superseded, inWindow, 
-                                 staleInstall, windowInstall, dropped, mine, 
-                                 outcome, correct, wrote >>
+                 /\ UNCHANGED << dead, val, infl, locked, running, created, 
+                                 res, stale, touched, seen, superseded, 
+                                 inWindow, staleInstall, windowInstall, 
+                                 dropped, mine, outcome, correct, wrote >>
 
 wait(self) == /\ pc[self] = "wait"
               /\ mine[self] \in done
               /\ got' = [got EXCEPT ![self] = res[mine[self]]]
               /\ pc' = [pc EXCEPT ![self] = "finish"]
-              /\ UNCHANGED << val, infl, locked, done, running, created, res, 
-                              stale, touched, seen, superseded, inWindow, 
+              /\ UNCHANGED << dead, val, infl, locked, done, running, created, 
+                              res, stale, touched, seen, superseded, inWindow, 
                               staleInstall, windowInstall, dropped, mine, 
                               outcome, correct, wrote >>
 
 finish(self) == /\ pc[self] = "finish"
                 /\ TRUE
                 /\ pc' = [pc EXCEPT ![self] = "Done"]
-                /\ UNCHANGED << val, infl, locked, done, running, created, res, 
-                                stale, touched, seen, superseded, got, 
-                                inWindow, staleInstall, windowInstall, dropped, 
-                                mine, outcome, correct, wrote >>
+                /\ UNCHANGED << dead, val, infl, locked, done, running, 
+                                created, res, stale, touched, seen, superseded, 
+                                got, inWindow, staleInstall, windowInstall, 
+                                dropped, mine, outcome, correct, wrote >>
 
 Loader(self) == lookup(self) \/ start(self) \/ ldEnter(self)
                    \/ ldExit(self) \/ install(self) \/ release(self)
@@ -312,6 +327,7 @@ w_cancel(self) == /\ pc[self] = "w_cancel"
                   /\ locked' = TRUE
                   /\ wrote' = [wrote EXCEPT ![self] = WriterKind[self] = "set" \/ (WriterKind[self] \in {"invalidate", "evict"} /\ val # Nil)]
                   /\ IF wrote'[self] \/ WriterKind[self] = "invalidate" \/ (WriterKind[self] = "stale" /\ StaleCancels)
+                                     \/ (WriterKind[self] = "sweep" /\ dead /\ SweepCancels)
                         THEN /\ infl' = Nil
                              /\ superseded' = (superseded \cup created)
                         ELSE /\ TRUE
@@ -321,8 +337,8 @@ w_cancel(self) == /\ pc[self] = "w_cancel"
                         ELSE /\ TRUE
                              /\ UNCHANGED touched
                   /\ pc' = [pc EXCEPT ![self] = "w_store"]
-                  /\ UNCHANGED << val, done, running, created, res, stale, 
-                                  seen, got, inWindow, staleInstall, 
+                  /\ UNCHANGED << dead, val, done, running, created, res, 
+                                  stale, seen, got, inWindow, staleInstall, 
                                   windowInstall, dropped, mine, outcome, 
                                   correct >>
 
@@ -333,6 +349,10 @@ w_store(self) == /\ pc[self] = "w_store"
                             /\ touched' = [p \in Getters \cup Refreshers |-> TRUE]
                        ELSE /\ TRUE
                             /\ UNCHANGED << val, stale, touched >>
+                 /\ IF WriterKind[self] \in {"set", "invalidate", "sweep"}
+                       THEN /\ dead' = FALSE
+                       ELSE /\ TRUE
+                            /\ dead' = dead
                  /\ locked' = FALSE
                  /\ pc' = [pc EXCEPT ![self] = "Done"]
                  /\ UNCHANGED << infl, done, running, created, res, seen, 
